@@ -171,6 +171,15 @@ def range_case(draw):
     n = c["g"]["n"][c["axis"]]
     a = draw(axis_spec(n))
     b = draw(axis_spec(n))
+    if draw(st.integers(0, 3)) == 0 and not c["subs"]:
+        # integer-cornered region with fractional cells, one bound a whole number (given as int), the other not
+        c["g"] = draw(gen.geom_int(ndim=nd, fractional=True))
+        c["mask"] = ["all"]
+        n = c["g"]["n"][c["axis"]]
+        a = ["v", draw(st.sampled_from([0, n]))]
+        b = draw(st.one_of(st.tuples(st.just("c"), st.integers(0, n - 1)).map(list),
+                           st.tuples(st.just("f"), st.integers(0, n - 1), st.sampled_from([0.25, 0.5, 0.75])).map(list)))
+        c["int_mix"] = True
     if c["subs"] and draw(st.booleans()):
         # a bound exactly on a subregion face
         sb = draw(st.sampled_from(c["subs"]))
@@ -483,6 +492,6 @@ SUBS = [
 # objects with a history (reads that may fill caches, in-place writes): observables equal those of a fresh object
 from pbt import aged as _aged  # noqa: E402
 
-SUBS.append(_aged.sub("C07", quick=120))
+SUBS.append(_aged.sub("C07", quick=250))
 ASSUMPTIONS = list(ASSUMPTIONS) + ["aged sub-property: library results are a function of the public primary state "
                                    "(corners, n, names, units, bc, subregions, array, validity, labels, mapping, unit)"]
